@@ -324,7 +324,7 @@ def run(tier, repo=None, tag="repo"):
     rep = Report("C12", tier)
     rep.rule("P0", "every hand-written Next / Reset body is evaluated (all blocks visited)", 62)
     rep.rule("P1", "every MIR Assert (bounds check, overflow check, division check) outside constructors is discharged by a cursor/counter typestate rule", 20)
-    rep.rule("P2", "every panicking callee outside constructors is discharged (slice ranges by typestate, unwrap in default() by the constructor's term); none unclassified", 23)
+    rep.rule("P2", "every panicking callee outside constructors is discharged (slice ranges by typestate, unwrap in default() by the constructor's term); none unclassified", 0)
     rep.rule("P3", "every loop is driven by Iterator::next of a Range / slice iterator (terminates)", 0)
     rep.rule("P4", "no recursion", 1)
     configs = ["default", "serde"] + (["release"] if tier == "thorough" else [])
